@@ -249,6 +249,56 @@ def guard_state(v):
     return v
 
 
+_PUBLIC_NAME = {}
+
+
+def public_name(f):
+    """the dotted name under which contracts and summaries know a repository function.  Normally module + qualname;
+    when the function has been MOVED (to a private module that the old one re-exports from, to a base class or a
+    mixin) the old public path still reaches the very same function object, and that path is the name used."""
+    qn = f.__module__ + "." + f.__qualname__
+    if qn in SUMMARIES:
+        return qn
+    key = (id(f), len(SUMMARIES))
+    if key in _PUBLIC_NAME:
+        return _PUBLIC_NAME[key]
+    name = qn
+    hits = []
+    for cand in list(SUMMARIES):
+        try:
+            parts = cand.split(".")
+            obj = None
+            for i in range(len(parts), 0, -1):
+                m = sys.modules.get(".".join(parts[:i]))
+                if m is None:
+                    continue
+                obj = m
+                for p in parts[i:]:
+                    if isinstance(obj, type):
+                        for k in obj.__mro__:
+                            if p in vars(k):
+                                obj = vars(k)[p]
+                                break
+                        else:
+                            obj = None
+                            break
+                    else:
+                        obj = getattr(obj, p, None)
+                    if obj is None:
+                        break
+                break
+            if isinstance(obj, (classmethod, staticmethod)):
+                obj = obj.__func__
+            if obj is f:
+                hits.append(cand)
+        except Exception:
+            continue
+    if len(hits) == 1:
+        name = hits[0]          # (several public paths to ONE function, e.g. a method now shared by two classes: no summary
+    _PUBLIC_NAME[key] = name    #  is specific enough, the function is inlined)
+    return name
+
+
 class _ChainEnv(dict):
     """local names of a nested function on top of the (live) environment of the enclosing one: reads fall through,
     writes stay local"""
@@ -266,6 +316,42 @@ class _ChainEnv(dict):
         if dict.__contains__(self, k):
             return dict.__getitem__(self, k)
         return self.outer.get(k, d)
+
+
+class NoSummary(Exception):
+    """raised by a call summary whose contract does not apply to the actual call"""
+
+
+class SuperProxy(L.SymVal):
+    def __init__(self, owner, first):
+        self.owner, self.first = owner, first
+
+    def sym_getattr(self, ctx, name):
+        first = self.first
+        if isinstance(first, Ref):
+            cls, inst = ctx.deref(first).cls, first
+        elif isinstance(first, type):
+            cls, inst = first, None
+        else:
+            raise Undecided("super() on a value that is not an instance of a repository class")
+        mro = list(cls.__mro__)
+        if self.owner not in mro:
+            raise PyRaise(TypeError, "super(type, obj): obj must be an instance or subtype of type")
+        for k in mro[mro.index(self.owner) + 1:]:
+            if name in vars(k):
+                a = vars(k)[name]
+                if isinstance(a, property):
+                    return ctx.call_value(a.fget, [first], {})
+                if isinstance(a, classmethod):
+                    return BoundMeth(a.__func__, cls)
+                if isinstance(a, staticmethod):
+                    return a.__func__
+                if isinstance(a, types.FunctionType):
+                    return BoundMeth(a, first) if inst is not None else a
+                if k is object:
+                    raise Undecided("super() reaching object." + name)
+                return a
+        raise PyRaise(AttributeError, name)
 
 
 class GenTuple(tuple):
@@ -876,6 +962,13 @@ class Ctx:
             return self.call_value(f.func, [f.self_val] + list(args), kwargs)
         if isinstance(f, types.MethodType) and is_repo_func(f.__func__):
             return self.call_value(f.__func__, [f.__self__] + list(args), kwargs)
+        if callable(getattr(f, "dispatch", None)) and hasattr(f, "registry") and hasattr(f, "__wrapped__"):
+            # functools.singledispatch: the implementation registered for the (modelled) Python type of the first argument
+            if not args:
+                raise PyRaise(TypeError, "singledispatch function requires at least 1 positional argument")
+            from . import models as _M
+            impl = f.dispatch(_M._cls_of(self, args[0]))
+            return self.call_value(impl, args, kwargs)
         if is_repo_func(f):
             return self.call_repo(f, args, kwargs)
         if isinstance(f, type) and is_repo_class(f) and not issubclass(f, BaseException) \
@@ -918,6 +1011,12 @@ class Ctx:
             raise
         except Undecided:
             raise
+        except (RuntimeError, SystemError, RecursionError, NameError, ReferenceError) as e:
+            # interpreter-level failures of a native call usually mean that it depends on context the engine does not
+            # reproduce (frames, cells, recursion depth): not an outcome of the program under verification
+            if type(e) in (RuntimeError, SystemError, RecursionError, NameError, ReferenceError):
+                raise Undecided(f"native call {getattr(f, '__qualname__', f)} failed inside the engine: {type(e).__name__}: {e}")
+            raise PyRaise(type(e), str(e))
         except BaseException as e:
             raise PyRaise(type(e), str(e))
 
@@ -942,11 +1041,15 @@ class Ctx:
         return ref
 
     def call_repo(self, f, args, kwargs):
-        qn = f.__module__ + "." + f.__qualname__
+        qn = public_name(f)
         s = SUMMARIES.get(qn)
         if s is not None and qn not in self.no_summary:
-            self.calls.append(("summary", qn))
-            return s(self, list(args), dict(kwargs))
+            try:
+                r = s(self, list(args), dict(kwargs))
+                self.calls.append(("summary", qn))
+                return r
+            except NoSummary:
+                pass                # the callee's contract does not cover this call (e.g. another receiver class): inline it
         # all-native arguments and not the function under verification: concrete folding
         if not any(contains_sym(a) for a in args) and not any(contains_sym(a) for a in kwargs.values()) \
                 and qn not in self.opts.get("no_fold", ()) and not _has_effects(qn):
@@ -1371,9 +1474,17 @@ class Frame:
             if r is not None:
                 return
         n = 0
+        nsym = 0
         limit = self.ctx.opts.get("while_unroll", 2000)
+        sym_limit = self.ctx.opts.get("while_unroll_symbolic", 24)
         while True:
             c = self.ctx.truthy(self.ev(s.test))
+            if is_sym(c):
+                # a condition that stays symbolic forks at every iteration: without a sidecar invariant such a loop is
+                # unrolled a few times only (enough for the short loops of the package), then the path is undecided
+                nsym += 1
+                if nsym > sym_limit:
+                    raise Undecided("loop with a symbolic condition and no sidecar invariant (unrolled %d times)" % sym_limit)
             if not self.ctx.branch(c):
                 self.exec_block(s.orelse)
                 return
@@ -1625,7 +1736,26 @@ class Frame:
             return subscript(self.ctx, base, slice(lo, hi))
         return subscript(self.ctx, base, self.ev(e.slice))
 
+    def _super(self):
+        """zero-argument super() inside a method of a repository class: attribute lookup continues in the MRO of the
+        RUNTIME class of the first argument after the class that defines the running method"""
+        f = self.func
+        if f is None or "." not in getattr(f, "__qualname__", ""):
+            raise Undecided("super() outside a method")
+        owner = sys.modules[f.__module__]
+        for part in f.__qualname__.split(".")[:-1]:
+            owner = getattr(owner, part, None)
+        if not isinstance(owner, type):
+            raise Undecided("super(): defining class not found")
+        fd = SOURCE.lambdadef(f) if f.__name__ == "<lambda>" else SOURCE.funcdef(f.__module__, f.__qualname__)
+        params = [a.arg for a in fd.args.posonlyargs + fd.args.args]
+        if not params or params[0] not in self.env:
+            raise Undecided("super() without a first argument")
+        return SuperProxy(owner, self.env[params[0]])
+
     def e_Call(self, e):
+        if isinstance(e.func, ast.Name) and e.func.id == "super" and not e.args and not e.keywords and "super" not in self.env:
+            return self._super()
         f = self.ev(e.func)
         args = self._elts(e.args)
         kwargs = {}
@@ -2292,6 +2422,9 @@ def subscript(ctx, base, idx):
                 r = z3.If(z3.Or(idx == i, idx == i - n), z3.IntVal(base[i]), r)
             return r
         if isinstance(base, dict) and len(base) <= 64 and all(isinstance(k, (int, str, bytes)) for k in base):
+            r = _dict_lookup(ctx, base, idx)
+            if r is not _NO:
+                return r
             # small constant table keyed by plain values: decided key by key (KeyError when no key matches)
             for k in base:
                 if ctx.branch(value_eq(ctx, idx, k)):
@@ -2309,6 +2442,9 @@ def subscript(ctx, base, idx):
         raise Undecided("symbolic index into native container")
     if contains_sym(idx):
         if isinstance(base, dict) and len(base) <= 64 and all(isinstance(k, (int, str, bytes)) for k in base):
+            r = _dict_lookup(ctx, base, idx)
+            if r is not _NO:
+                return r
             for k in base:
                 if ctx.branch(value_eq(ctx, idx, k)):
                     return lift_native(ctx, base[k])
@@ -2318,6 +2454,31 @@ def subscript(ctx, base, idx):
         return base[idx]
     except BaseException as ex:
         raise PyRaise(type(ex), str(ex))
+
+
+_NO = object()
+
+
+def _dict_lookup(ctx, table, key):
+    """table[key] for a constant dict with integer values and a symbolic character / integer key as ONE term:
+    a single split on "key is in the table" (KeyError otherwise) instead of one split per key"""
+    vals = list(table.values())
+    if not vals or not all(isinstance(v, int) and not isinstance(v, bool) for v in vals):
+        return _NO
+    sentinel = min(vals) - 1
+    t = table_term(ctx, table, simplify_native(key), sentinel)
+    if t is None:
+        return _NO
+    from .lowbits import LB
+    if isinstance(t, LB) or sentinel < 0:
+        # (the bit-vector flavour cannot carry a negative sentinel: decide membership separately)
+        member = lor(*[value_eq(ctx, key, k) for k in table])
+        if not ctx.branch(member):
+            raise PyRaise(KeyError)
+        return table_term(ctx, table, simplify_native(key), vals[0])
+    if not ctx.branch(t != sentinel):
+        raise PyRaise(KeyError)
+    return t
 
 
 def table_term(ctx, table, key, default):
